@@ -22,6 +22,15 @@ register("C14", lean_modules=["GtModel.Props.C14"], gen=_gt.gen_cli_tables, stre
          assumptions=["mimetypes.guess_type is an oracle (its answer for each file name is recorded and shipped to the model)"],
          trusted=["file-type tables regenerated from /repo by harness/gentables.py"])
 
-register("C13", lean_modules=[], theorems=[], streams=["matrix"])
+register("C13", lean_modules=["GtModel.Props.C13"], gen=_gt.gen_formatter_tables, streams=["dispatch", "matrix"],
+         theorems=["GtModel.C13.dispatch_total", "GtModel.C13.dispatch_total_from_subformatters", "GtModel.C13.edit_dispatch_total", "GtModel.C13.fuel_sufficient"],
+         partial="only the formatter DISPATCH is modelled and proved total; the handler bodies are not modelled: that part is decided on the real code by exhaustive enumeration of the configuration space (stream matrix). Findings D11/D18 (handler bodies) are recorded.",
+         assumptions=["Edited<cls> classes created by make_edited have the MRO (Edited<cls>, EditedTreeNode, cls, ...) (validated: the dispatch stream resolves them on the real classes)"],
+         trusted=["formatter registry / class MRO tables regenerated from /repo by harness/gentables.py"])
 
-register("C09", lean_modules=["GtModel.Model.Formats"], theorems=[], streams=["formats"])
+register("C09", lean_modules=["GtModel.Props.C09"], streams=["formats"],
+         theorems=["GtModel.C09.same_data_zero", "GtModel.C09.same_data_zero_all", "GtModel.C09.third_doc_independent",
+                   "GtModel.C09.plist_from_side", "GtModel.C09.plist_to_side_replace_witness", "GtModel.C02.eq_zero_cost"],
+         partial="the full property is false of the current code for (non-plist -> plist) pairs (finding D10, proved as a witness theorem); the four external parsers are parameters",
+         assumptions=["the JSON, JSON5, YAML and plist parsers return equal Python objects for the same datum (each generated datum is loaded through all four real loaders and compared on every run)"],
+         trusted=[])
